@@ -167,6 +167,22 @@ func ruleVD8(c *Ctx) {
 			}
 			n++
 			construct := em.construct("epic") + "|epic-ref"
+			// the item being filed under an epic is not itself an epic (epics do not nest: an epic inside an epic is a
+			// child that can never be done, so the outer epic never completes and whatever waits on it is stuck)
+			if isEpicFn := c.F.Anchors["isEpic"]; isEpicFn != nil {
+				notEpic := edgesWhere(f, func(a Atom, holds bool) bool {
+					if a.Kind != "bool" || holds {
+						return false
+					}
+					if cl, _ := callOf(a.X); cl != nil && calleeOf(&cl.Call) == isEpicFn {
+						return true
+					}
+					_, nme, ok := fieldLoad(a.X)
+					return ok && nme == "IsEpic"
+				})
+				c.check(len(notEpic) > 0 && mustPassEdges(f, em.Call.Block(), notEpic), fn, em.construct("epic")+"|not-an-epic", pos,
+					"an epic assignment is recorded only for an item tested not to be an epic", "an epic can be filed under another epic: the emission is not confined to the !isEpic(item) edge (the nested epic never leaves todo, so the outer epic is never complete and tasks waiting on it are never ready)")
+			}
 			// local guard?
 			vc := c.canon(ev)
 			if ok, _ := c.epicGuardOK(f, em.Call.Block(), vc, c.emptyStringEdges(f, vc)); ok {
